@@ -1341,6 +1341,7 @@ class Kconfig(object):
         # SYMBOL: VAL_FROM_SDKCONFIG
         symbols_with_default_values: Dict[Symbol, str] = dict()
         choices_with_default_values: Set[Choice] = set()
+        promptless_with_default_values: List[Symbol] = []
 
         # CHOICE: (SYMBOL: VAL)*
         # When setting choice symbols one-by-one, we cannot correctly determine e.g. if the choice
@@ -1589,9 +1590,8 @@ class Kconfig(object):
                     if is_main_sdkconfig:
                         sym._sdkconfig_value = val
                         sym._loaded_as_default = True
-                    if is_main_sdkconfig and sym.str_value != sym._sdkconfig_value:
-                        if sym.name not in self.promptless_no_warn:
-                            self.report.add_record(DefaultValuesArea, sym_or_choice=sym, promptless=True)
+                        # Compared once the whole file is loaded; the symbols it depends on may follow later
+                        promptless_with_default_values.append(sym)
 
                 value_is_default = False
 
@@ -1674,6 +1674,10 @@ class Kconfig(object):
             for choice in self.unique_choices:
                 if not choice._was_set:
                     choice.unset_value()
+
+        for sym in promptless_with_default_values:
+            if sym.str_value != sym._sdkconfig_value and sym.name not in self.promptless_no_warn:
+                self.report.add_record(DefaultValuesArea, sym_or_choice=sym, promptless=True)
 
         if self.print_report or self.report.status == REPORT_STATUS_ERROR:
             self.report.print_report()
